@@ -1,9 +1,14 @@
-(* C10 - Reshape: the two-cursor merge / split loop terminates and returns exactly the requested mode sizes.
-   The value clause (the dense value is preserved up to eps) is measured by the check (partial): the splits go through
-   the TT-SVD whose rank rule is C01's; permute and the QTT conversions are covered by measurement only.
+(* C10 - Reshape / permute.
+   Shape level: the two-cursor merge / split loop of reshape terminates and returns exactly the requested mode sizes; the swap
+   schedule of permute terminates after as many supercore swaps as there are inversions and leaves the modes in the requested order.
+   Value level: each elementary step - merging two adjacent cores, replacing a core by ANY exact factorisation, exchanging two
+   adjacent modes through ANY exact re-factorisation of the transposed supercore - preserves every entry at the re-indexed position,
+   and merging preserves the row-major position; so with untruncated splits the mechanisms compute torch.reshape / torch.permute
+   exactly (no sign, phase or scale change is possible).  The SVD is an oracle; the truncation error of a split is C01's theorem;
+   the composition with the floating-point loop is measured by the check (DESIGN.md).
    Only theorem statements closed by `exact`, each followed by Print Assumptions. *)
-From Coq Require Import List Arith.
-From TT Require Import Reshape ReshapeP.
+From Coq Require Import List Arith Permutation.
+From TT Require Import RingSig SumN Mat Core Reshape ReshapeP ReshapeV ReshapeVP Permute PermuteP.
 Import ListNotations.
 
 (* the loop invariant, for any starting state: with fuel above #input cores + #targets, equal element counts and
@@ -19,5 +24,45 @@ Theorem C10_reshape_shape ns tg : ns <> [] -> allpos ns -> allpos tg -> prodl ns
   reshape_modes ns tg = Some tg.
 Proof. exact (reshape_shape ns tg). Qed.
 
+(* permute: for every permutation dims of 0..d-1 the bubble loop terminates, performs exactly inv(dims) swaps, each at a valid
+   bond, and ends with the modes in the order dims *)
+Theorem C10_permute_schedule (dims : list nat) : Permutation (seq 0 (length dims)) dims ->
+  exists sw, permute_schedule dims = Some (dims, sw) /\
+             length sw = inv (fun x => index_of x dims) (seq 0 (length dims)) /\
+             Forall (fun p => p + 1 < length dims) sw.
+Proof. exact (permute_schedule_spec dims). Qed.
+
+Section Values.
+Context {R : Type} {RO : RingOps R} {RL : RingLaws R}.
+
+(* merging cores k, k+1: the entry at the fused index i*n_{k+1} + j is the old entry at (i, j) *)
+Theorem C10_merge_entry k (x : tt R) idx :
+  (k + 1 < length x)%nat -> length idx = length x -> (nth (k + 1) idx 0 < nth (k + 1) (shape x) 0)%nat ->
+  entry (merge_at k x) (merge_idx_at k (shape x) idx) = entry x idx.
+Proof. exact (merge_entry k x idx). Qed.
+
+(* ... and the fused index is at the same row-major position of the reshaped array *)
+Theorem C10_flat_merge k ns idx : (k + 1 < length ns)%nat -> length idx = length ns ->
+  flat_pos (merge_shape k ns) (merge_idx_at k ns idx) = flat_pos ns idx.
+Proof. exact (flat_merge k ns idx). Qed.
+
+(* replacing core k by any exact factorisation (a, b) - the untruncated SVD split *)
+Theorem C10_split_entry k (x : tt R) (a b : core3 R) idx :
+  (k < length x)%nat -> length idx = S (length x) -> exact_split (nth k x a) a b -> (nth (k + 1) idx 0 < nn b)%nat ->
+  entry (split_at k a b x) idx = entry x (merge_idx_at k (shape (split_at k a b x)) idx).
+Proof. exact (split_entry k x a b idx). Qed.
+
+(* exchanging modes k, k+1 through any exact re-factorisation of the transposed supercore - permute's elementary step *)
+Theorem C10_swap_entry k (x : tt R) (a' b' : core3 R) idx :
+  (k + 1 < length x)%nat -> length idx = length x -> exact_swap (nth k x a') (nth (k + 1) x a') a' b' ->
+  entry (swap_at k a' b' x) (swap_idx k idx) = entry x idx.
+Proof. exact (swap_entry k x a' b' idx). Qed.
+End Values.
+
 Print Assumptions C10_reshape_loop_spec.
 Print Assumptions C10_reshape_shape.
+Print Assumptions C10_permute_schedule.
+Print Assumptions C10_merge_entry.
+Print Assumptions C10_flat_merge.
+Print Assumptions C10_split_entry.
+Print Assumptions C10_swap_entry.
